@@ -801,3 +801,340 @@ func mMismatchText(ms []mMismatch) string {
 	}
 	return strings.Join(s, "; ")
 }
+
+// ---------------------------------------------------------------------------
+// UP4 image (C04)
+
+type mUP4Cfg struct {
+	GhostPeers map[uint32]bool
+	N3      uint32
+	PoolIP  uint32
+	PoolLen int
+	Slice   uint8
+	QFIToTC map[uint8]uint8
+	DefTC   uint8
+}
+
+// mAppKey: the application filter of a PDR in UP4 terms (remote prefix, remote port range, protocol); ok=false: no filter
+type mAppKey struct {
+	IP     uint32
+	Len    int
+	Lo, Hi uint16
+	Proto  uint8
+	HasP   bool
+}
+
+func mAppKeyOf(p *mPDR) (mAppKey, bool) {
+	f := mExpectFilter(p.Uplink, p.UE, p.Flow)
+	var k mAppKey
+	var mask uint32
+	if p.Uplink {
+		k.IP, mask, k.Lo, k.Hi = f.DstIP, f.DstMask, f.DstLo, f.DstHi
+	} else {
+		k.IP, mask, k.Lo, k.Hi = f.SrcIP, f.SrcMask, f.SrcLo, f.SrcHi
+	}
+	for m := mask; m != 0; m <<= 1 {
+		k.Len++
+	}
+	k.IP &= mask
+	if !f.ProtoAny {
+		k.Proto, k.HasP = f.Proto, true
+	}
+	empty := k.Len == 0 && k.Lo == 0 && k.Hi == 65535 && !k.HasP
+	return k, !empty
+}
+
+func mSessionUE(s *mSession) uint32 {
+	for _, p := range s.PDRs {
+		if !p.Uplink && p.UE != 0 {
+			return p.UE
+		}
+	}
+	return 0
+}
+
+// mCheckUP4 compares the harness P4Runtime server's state with the image of the live sessions.
+func mCheckUP4(snap vP4Snap, sessions []*mSession, cfg mUP4Cfg) []mMismatch {
+	var out []mMismatch
+	bad := func(rule, shape, f string, a ...interface{}) {
+		if len(out) < 12 {
+			out = append(out, mMismatch{rule, shape, fmt.Sprintf(f, a...)})
+		}
+	}
+	// ---- interfaces: exactly the N3 /32 and the UE pool
+	ifs := snap.table("PreQosPipe.interfaces")
+	okN3, okPool := false, false
+	for _, e := range ifs {
+		m := e.Match["ipv4_dst_prefix"]
+		switch {
+		case uint32(m.Val) == cfg.N3 && m.Prefix == 32:
+			okN3 = e.Action == "PreQosPipe.set_source_iface" && e.Params["src_iface"] == access && e.Params["direction"] == 1 && e.Params["slice_id"] == uint64(cfg.Slice)
+		case uint32(m.Val) == cfg.PoolIP && int(m.Prefix) == cfg.PoolLen:
+			okPool = e.Action == "PreQosPipe.set_source_iface" && e.Params["src_iface"] == core && e.Params["direction"] == 2 && e.Params["slice_id"] == uint64(cfg.Slice)
+		default:
+			bad("C04.R6", "interfaces-extra", "interfaces table holds an unexpected entry %s", e.String())
+		}
+	}
+	if !okN3 || !okPool {
+		bad("C04.R6", fmt.Sprintf("interfaces n3=%v pool=%v", okN3, okPool), "interfaces table must hold the N3 address (/32, access, uplink) and the UE pool (core, downlink) with slice %d; N3 ok=%v pool ok=%v (%d entries)", cfg.Slice, okN3, okPool, len(ifs))
+	}
+	// ---- tunnel peers and applications as written (ids are the agent's choice; they are resolved through these tables)
+	peerByID := map[uint64]vP4Entry{}
+	peerIDByDst := map[uint32]uint64{}
+	for _, e := range snap.table("PreQosPipe.tunnel_peers") {
+		id := e.Match["tunnel_peer_id"].Val
+		peerByID[id] = e
+		dst := uint32(e.Params["dst_addr"])
+		if o, dup := peerIDByDst[dst]; dup {
+			bad("C04.R4", "two-peer-entries-for-one-peer", "GTP peer %s has two tunnel_peers entries (ids %d and %d)", vIPStr(dst), o, id)
+		}
+		peerIDByDst[dst] = id
+		if uint32(e.Params["src_addr"]) != cfg.N3 || e.Params["sport"] != 2152 || e.Action != "PreQosPipe.load_tunnel_param" {
+			bad("C04.R4", "peer-params", "tunnel_peers entry %s: source must be the N3 address %s, source port 2152", e.String(), vIPStr(cfg.N3))
+		}
+	}
+	type appEnt struct {
+		id   uint64
+		prio int32
+	}
+	appByKey := map[mAppKey]appEnt{}
+	appIDs := map[uint64]mAppKey{}
+	for _, e := range snap.table("PreQosPipe.applications") {
+		var k mAppKey
+		if m, ok := e.Match["app_ip_addr"]; ok {
+			k.IP, k.Len = uint32(m.Val), int(m.Prefix)
+		}
+		k.Lo, k.Hi = 0, 65535
+		if m, ok := e.Match["app_l4_port"]; ok {
+			k.Lo, k.Hi = uint16(m.Val), uint16(m.Mask)
+		}
+		if m, ok := e.Match["app_ip_proto"]; ok {
+			k.Proto, k.HasP = uint8(m.Val), true
+			if m.Mask != 0xFF {
+				bad("C04.R3", "app-proto-mask", "applications entry %s: protocol mask %#x", e.String(), m.Mask)
+			}
+		}
+		if e.Match["slice_id"].Val != uint64(cfg.Slice) {
+			bad("C04.R3", "app-slice", "applications entry %s: slice id must be %d", e.String(), cfg.Slice)
+		}
+		id := e.Params["app_id"]
+		if _, dup := appByKey[k]; dup {
+			bad("C04.R3", "two-entries-for-one-filter", "application filter %+v has two applications entries", k)
+		}
+		if o, dup := appIDs[id]; dup && o != k {
+			bad("C04.R3", "one-app-id-two-filters", "application id %d is attached to two different filters", id)
+		}
+		appByKey[k] = appEnt{id, e.Priority}
+		appIDs[id] = k
+		if id == 0 {
+			bad("C04.R3", "app-id-zero", "applications entry %s uses the default application id 0", e.String())
+		}
+	}
+	// ---- expected sessions / terminations
+	usedPeers := map[uint32]bool{}
+	usedApps := map[mAppKey]bool{}
+	wantSU := map[string]bool{}
+	wantSD := map[uint32]*mSession{}
+	type term struct {
+		s  *mSession
+		p  *mPDR
+		k  mAppKey
+		ok bool
+	}
+	wantTU := map[string]term{}
+	wantTD := map[string]term{}
+	for _, s := range sessions {
+		ue := mSessionUE(s)
+		for _, p := range s.PDRs {
+			k, has := mAppKeyOf(p)
+			if has {
+				usedApps[k] = true
+			}
+			appID := uint64(0)
+			if has {
+				ent, ok := appByKey[k]
+				if !ok {
+					bad("C04.R3", "application-missing", "session %#x PDR %d: no applications entry for its filter %+v (sdf %q)", s.UP, p.Spec.ID, k, p.Spec.SDF)
+					continue
+				}
+				appID = ent.id
+				if want := int32(65535 - p.Spec.Prec); ent.prio != want {
+					bad("C04.R3", "application-priority", "session %#x PDR %d (precedence %d): applications entry has priority %d, %d expected", s.UP, p.Spec.ID, p.Spec.Prec, ent.prio, want)
+				}
+			}
+			key := fmt.Sprintf("%x/%d", ue, appID)
+			if p.Uplink {
+				if p.Spec.FTEID {
+					wantSU[fmt.Sprintf("%x/%x", p.TunIP, p.TEID)] = true
+				}
+				wantTU[key] = term{s, p, k, has}
+			} else {
+				wantSD[p.UE] = s
+				wantTD[key] = term{s, p, k, has}
+			}
+			if f := s.far(p.Spec.FAR); f != nil && !p.Uplink && f.Spec.Action&ActionForward != 0 && f.Spec.OHC && f.Spec.OHCTeid != 0 {
+				usedPeers[vIP4(f.Spec.OHCIP)] = true
+			}
+		}
+	}
+	// sessions_uplink
+	gotSU := map[string]bool{}
+	sessMeterRefs := map[uint64]bool{}
+	appMeterRefs := map[uint64]bool{}
+	for _, e := range snap.table("PreQosPipe.sessions_uplink") {
+		k := fmt.Sprintf("%x/%x", e.Match["n3_address"].Val, e.Match["teid"].Val)
+		gotSU[k] = true
+		if !wantSU[k] {
+			bad("C04.R1", "sessions-uplink-extra", "sessions_uplink holds %s which no live uplink PDR denotes", e.String())
+		}
+		if e.Action != "PreQosPipe.set_session_uplink" {
+			bad("C04.R1", "sessions-uplink-action", "sessions_uplink entry %s: unexpected action", e.String())
+		}
+		sessMeterRefs[e.Params["session_meter_idx"]] = true
+	}
+	for k := range wantSU {
+		if !gotSU[k] {
+			bad("C04.R1", "sessions-uplink-missing", "no sessions_uplink entry under N3 address/TEID %s of a live uplink PDR", k)
+		}
+	}
+	// sessions_downlink
+	gotSD := map[uint32]bool{}
+	for _, e := range snap.table("PreQosPipe.sessions_downlink") {
+		ue := uint32(e.Match["ue_address"].Val)
+		gotSD[ue] = true
+		s := wantSD[ue]
+		if s == nil {
+			bad("C04.R1", "sessions-downlink-extra", "sessions_downlink holds %s which no live downlink PDR denotes", e.String())
+			continue
+		}
+		sessMeterRefs[e.Params["session_meter_idx"]] = true
+		// action follows the FAR of the session's downlink PDR(s): buffering visible as set_session_downlink_buff
+		var f *mFAR
+		for _, p := range s.PDRs {
+			if !p.Uplink {
+				f = s.far(p.Spec.FAR)
+				break
+			}
+		}
+		if f == nil {
+			continue
+		}
+		buff := f.Spec.Action&ActionBuffer != 0 && f.Spec.Action&ActionForward == 0
+		if buff != (e.Action == "PreQosPipe.set_session_downlink_buff") {
+			bad("C04.R2", fmt.Sprintf("downlink-buffering want=%v", buff), "session %#x: downlink FAR buffers=%v but sessions_downlink action is %s", s.UP, buff, e.Action)
+		}
+		if f.Spec.Action&ActionForward != 0 && f.Spec.OHC && f.Spec.OHCTeid != 0 && e.Action == "PreQosPipe.set_session_downlink" {
+			pe, ok := peerByID[e.Params["tunnel_peer_id"]]
+			if !ok {
+				bad("C04.R2", "tunnel-peer-dangling", "session %#x: sessions_downlink carries tunnel peer id %d which has no tunnel_peers entry", s.UP, e.Params["tunnel_peer_id"])
+			} else if uint32(pe.Params["dst_addr"]) != vIP4(f.Spec.OHCIP) {
+				bad("C04.R2", "tunnel-peer-wrong-address", "session %#x: tunnel peer id %d maps to %s, the FAR's outer header address is %s", s.UP, e.Params["tunnel_peer_id"], vIPStr(uint32(pe.Params["dst_addr"])), f.Spec.OHCIP)
+			}
+		}
+	}
+	for ue, s := range wantSD {
+		if !gotSD[ue] {
+			bad("C04.R1", "sessions-downlink-missing", "no sessions_downlink entry under UE address %s of session %#x", vIPStr(ue), s.UP)
+		}
+	}
+	// terminations
+	checkTerm := func(table string, uplink bool, want map[string]term) {
+		got := map[string]bool{}
+		for _, e := range snap.table(table) {
+			key := fmt.Sprintf("%x/%d", e.Match["ue_address"].Val, e.Match["app_id"].Val)
+			got[key] = true
+			t, ok := want[key]
+			if !ok {
+				bad("C04.R1", table[len("PreQosPipe."):]+"-extra", "%s holds %s which no live PDR denotes", table, e.String())
+				continue
+			}
+			f := t.s.far(t.p.Spec.FAR)
+			if f == nil {
+				continue
+			}
+			var q *mQER
+			if len(t.p.Spec.QERs) > 0 {
+				q = t.s.qer(t.p.Spec.QERs[0])
+			}
+			closed := false
+			if q != nil {
+				if uplink {
+					closed = q.Spec.GateUL != 0
+				} else {
+					closed = q.Spec.GateDL != 0
+				}
+			}
+			wantDrop := f.Spec.Action&ActionDrop != 0 || closed
+			isDrop := e.Action == "PreQosPipe.uplink_term_drop" || e.Action == "PreQosPipe.downlink_term_drop"
+			if wantDrop != isDrop {
+				bad("C04.R2", fmt.Sprintf("termination-drop want=%v uplink=%v", wantDrop, uplink), "session %#x PDR %d: FAR drops=%v, gate closed=%v but the terminations action is %s", t.s.UP, t.p.Spec.ID, f.Spec.Action&ActionDrop != 0, closed, e.Action)
+				continue
+			}
+			if isDrop {
+				continue
+			}
+			appMeterRefs[e.Params["app_meter_idx"]] = true
+			if q != nil {
+				tc, ok := cfg.QFIToTC[q.Spec.QFI]
+				if !ok {
+					tc = cfg.DefTC
+				}
+				if e.Params["tc"] != uint64(tc) {
+					bad("C04.R2", "traffic-class", "session %#x PDR %d: QFI %d is configured for traffic class %d but the entry carries %d", t.s.UP, t.p.Spec.ID, q.Spec.QFI, tc, e.Params["tc"])
+				}
+				if !uplink && e.Params["qfi"] != uint64(q.Spec.QFI) {
+					bad("C04.R2", "qfi", "session %#x PDR %d: QER's QFI is %d but the entry carries %d", t.s.UP, t.p.Spec.ID, q.Spec.QFI, e.Params["qfi"])
+				}
+			}
+			if !uplink && f.Spec.Action&ActionForward != 0 && f.Spec.OHC {
+				if e.Params["teid"] != uint64(f.Spec.OHCTeid) {
+					bad("C04.R2", "termination-teid", "session %#x PDR %d: FAR's TEID is %#x but terminations_downlink carries %#x", t.s.UP, t.p.Spec.ID, f.Spec.OHCTeid, e.Params["teid"])
+				}
+			}
+		}
+		for key, t := range want {
+			if !got[key] {
+				bad("C04.R1", table[len("PreQosPipe."):]+"-missing", "no %s entry under <UE address/application id> %s for session %#x PDR %d", table, key, t.s.UP, t.p.Spec.ID)
+			}
+		}
+	}
+	checkTerm("PreQosPipe.terminations_uplink", true, wantTU)
+	checkTerm("PreQosPipe.terminations_downlink", false, wantTD)
+	// applications / tunnel peers present iff used
+	for k, ent := range appByKey {
+		if !usedApps[k] {
+			bad("C04.R3", "application-unused", "applications entry (id %d, filter %+v) exists although no live PDR uses that filter", ent.id, k)
+		}
+	}
+	for dst, id := range peerIDByDst {
+		if !usedPeers[dst] {
+			if cfg.GhostPeers[dst] {
+				bad("C04.R4", "update-far-leaves-old-tunnel-peer", "tunnel_peers entry %d for %s is still installed although no live rule uses that peer: an Update FAR that moves a FAR to another GTP peer (or stops forwarding) never releases the FAR's reference on the old peer", id, vIPStr(dst))
+			} else {
+				bad("C04.R4", "tunnel-peer-unused", "tunnel_peers entry %d for %s exists although no live forwarding rule uses that peer", id, vIPStr(dst))
+			}
+		}
+	}
+	for dst := range usedPeers {
+		if _, ok := peerIDByDst[dst]; !ok {
+			bad("C04.R4", "tunnel-peer-missing", "no tunnel_peers entry for GTP peer %s used by a live FAR", vIPStr(dst))
+		}
+	}
+	// configured meter cells only for QERs of live sessions. Cells cannot be attributed to QERs from the
+	// outside (a QER whose gates are closed is referenced by no entry), so the claim is judged by
+	// conservation: at most two cells (uplink, downlink) per live QER in each meter, none without QERs.
+	nq := 0
+	for _, s := range sessions {
+		nq += len(s.QERs)
+	}
+	for name, cells := range snap.Meters {
+		if name != "PreQosPipe.app_meter" && name != "PreQosPipe.session_meter" {
+			continue
+		}
+		if len(cells) > 2*nq {
+			bad("C04.R5", "meter-cells-left-configured "+name[len("PreQosPipe."):], "%s has %d configured cells but the live sessions have only %d QERs (at most two cells each)", name, len(cells), nq)
+		}
+	}
+	_, _ = sessMeterRefs, appMeterRefs
+	return out
+}
